@@ -316,6 +316,7 @@ fn op_kind(o: &Op) -> u8 {
         Op::SetAlt { on } => 129 + *on as u8,
         Op::SetTight { on } => 131 + *on as u8,
         Op::AppPubrelBig { .. } => 133,
+        Op::AppPubrelRc { .. } => 195,
         Op::SwapSide => 137,
         Op::ExhaustIds => 161,
         Op::ConnectAgain => 159,
